@@ -31,7 +31,9 @@ RULE = ("random advisory files, alone and in directories of 2-6 files read by on
         "per file 1-3 <package> entries over 3 package names, 0-3 vulnerable and 0-2 unaffected ranges each, every operator "
         "(lt le eq ge gt rlt rle rge rgt), versions taken from / near the installed set with and without revisions (incl. -r0), eq globs, slots, arch lists "
         "('*', empty, one, several), malformed ranges (unknown operator, missing or invalid version, glob with a non-eq operator, rlt of revision 0); "
-        "12 installed packages per case over the same names; non-trivial = an evaluated entry that flags at least one but not all packages of its name")
+        "12 installed packages per case over the same names; for every directory and every third single file the report find_vulnerable_repo_pkgs(glsa set, installed repo) "
+        "is taken ungrouped and grouped, with and without arch, consumed pair by pair or with all (restriction, matches) pairs collected first and the matches "
+        "read afterwards (first to last / last to first); non-trivial = an evaluated entry that flags at least one but not all packages of its name")
 
 KEYS = ["app-misc/foo", "dev-libs/bar", "sys-apps/baz"]
 VERS = [
@@ -229,7 +231,8 @@ def run(ctx):
     from pkgcore.ebuild import cpv
     from pkgcore.ebuild.atom import atom
     from pkgcore.pkgsets.glsa import GlsaDirSet
-    from pkgcore.test.misc import FakePkg
+    from pkgcore.test.misc import FakePkg, FakeRepo
+    from pkgcore.pkgsets.glsa import find_vulnerable_repo_pkgs
 
     rng = ctx.rng
     # a case = (advisory files of one directory, each a list of <package> entries; installed packages)
@@ -326,6 +329,33 @@ def run(ctx):
                 rs2 = list(g)
                 real2 = [(r.key, [bool(r.match(p)) for p in real_pkgs]) for r in rs2]
                 grouped = {r.key: [bool(r.match(p)) for p in real_pkgs] for r in g.pkg_grouped_iter()}
+                # the report itself: find_vulnerable_repo_pkgs on the installed packages, ungrouped and grouped, consumed the way callers do —
+                # pair by pair, or all (restriction, matches) pairs collected first and the matches read afterwards (forwards or backwards)
+                reports = []
+                if idx % 3 == 0 or len(files) > 1:
+                    pos = {}
+                    for j, p in enumerate(real_pkgs):
+                        pos.setdefault(id(p), j)
+                    installed_repo = FakeRepo(pkgs=[real_pkgs[j] for j in sorted(pos.values())])      # (a generated package may be listed twice)
+                    for grp in (False, True):
+                        arch = rng.choice([None, None, "x86", ("amd64", "x86")])
+                        how = rng.choice(["pair by pair", "pairs collected first, matches read afterwards", "pairs collected first, matches read last to first"])
+                        it = find_vulnerable_repo_pkgs(g, installed_repo, grouped=grp, arch=arch)
+                        if how == "pair by pair":
+                            pairs = [(r, list(m)) for r, m in it]
+                        else:
+                            pairs = list(it)
+                            if how.endswith("afterwards"):
+                                pairs = [(r, list(m)) for r, m in pairs]
+                            else:
+                                pairs = [(r, list(m)) for r, m in reversed(pairs)][::-1]
+                        want_kw = None if arch is None else (arch,) if isinstance(arch, str) else tuple(arch)
+                        rep_rows = []
+                        for r, m in pairs:
+                            raw = [getattr(x, "_raw_pkg", x) for x in m]
+                            rep_rows.append((r.key, [bool(r.match(p)) for p in real_pkgs], sorted(pos.get(id(x), -1) for x in raw),
+                                             all(want_kw is None or tuple(x.keywords) == want_kw for x in m)))
+                        reports.append((grp, arch, how, rep_rows))
             except Exception as e:
                 ctx.violation(pub, f"GlsaDirSet raised {type(e).__name__}: {e}")
                 continue
@@ -401,6 +431,27 @@ def run(ctx):
                 want_grouped[k] = [a or b for a, b in zip(want_grouped.get(k, [False] * len(v)), v)]
             if grouped != want_grouped:
                 ctx.violation(pub, f"pkg_grouped_iter flags {grouped}, the individual restrictions {want_grouped}")
+            # find_vulnerable_repo_pkgs: every restriction that flags an installed package is reported with exactly the packages it flags
+            uniq = sorted(set(pos.values())) if reports else []
+            for grp, arch, how, rep_rows in reports:
+                ctx.count("report_" + ("grouped" if grp else "ungrouped") + "_" + how.replace(" ", "_").replace(",", ""))
+                if grp:
+                    want_rows = [(k, v) for k, v in want_grouped.items()]
+                    key_of = lambda rows: sorted((k, v, m) for k, v, m in rows)
+                else:
+                    want_rows = list(zip(rkeys, real))
+                    key_of = lambda rows: list(rows)
+                want_rep = key_of([(k, v, [j for j in uniq if v[j]]) for k, v in want_rows if any(v)])
+                got_rep = key_of([(k, v, m) for k, v, m, _ in rep_rows])
+                if max((len(m) for _, _, m in want_rep), default=0) >= 2 and len(want_rep) >= 2:
+                    ctx.count("report_two_advisories_one_with_two_vulnerable_pkgs")
+                if got_rep != want_rep:
+                    names = [pub["installed"][j] for j in range(len(real_pkgs))]
+                    show = lambda rows: [(k, [names[j] for j in m]) for k, _, m in rows]
+                    ctx.violation(pub, f"find_vulnerable_repo_pkgs(grouped={grp}, arch={arch!r}; consumed: {how}) reports {show(got_rep)}; the advisory "
+                                       f"restrictions flag {show(want_rep)}")
+                elif not all(ok for _, _, _, ok in rep_rows):
+                    ctx.mismatch(pub, f"find_vulnerable_repo_pkgs(arch={arch!r}) yields packages whose keywords are not {arch!r}")
     finally:
         shutil.rmtree(scratch, ignore_errors=True)
 
